@@ -52,6 +52,34 @@ CHECKS = {
             'per-run bounds.',
             'A rebuild is recognised by ALTER TABLE "TEMP_TABLE" RENAME TO; '
             'cases where a path fails are skipped.', '3/C18'),
+    'C05': ('exploration',
+            'recorded real calls replayed against an invariant: hint applied '
+            'with run_simulation, residual Diff; eq vs Diff agreement on '
+            'pairs and variants',
+            'For generated signature pairs the hinted evolution is simulated '
+            'with the real code and the residual difference must be empty; '
+            '== is compared with "empty difference both ways" on pairs and '
+            'on systematically perturbed variants.',
+            'Signature level only; placeholders replaced by concrete '
+            'initials.', '3/C05'),
+    'C06': ('exploration',
+            'round-trip identity monitor on the real storage paths '
+            '(serialize/json/OrderedDict/deserialize, Version.save/reload, '
+            'v2->v1->v2)',
+            'Generated and hand-constructed signatures are stored and read '
+            'back through the same code the evolver uses; equality, both '
+            'diffs, re-serialisation and stored text stability are checked.',
+            'SQLite; directly constructed signatures are compared modulo '
+            'JSON key order.', '3/C06'),
+    'C13': ('exploration',
+            'differential monitoring of renderer and loader: rendered hint '
+            'text exec()d, loaded vs original mutations compared by '
+            'simulated signature and generated SQL',
+            'Hinted and hand-constructed mutations are rendered with the real '
+            'get_evolution_content(), loaded like an evolution module and '
+            'compared by effect with the originals.',
+            'exec() in a fresh namespace stands for importing the written '
+            'file.', '3/C13'),
 }
 
 NOT_YET = 'check under construction (round 1)'
